@@ -211,7 +211,10 @@ func (s *Sched) End() {
 //go:norace
 func (s *Sched) Yield(point string) {
 	if s.off {
-		return
+		// The run is over and its verdict taken; a goroutine that is still
+		// going (e.g. a loop that ignores cancellation) ends here, running
+		// its deferred calls, so that the bubble can finish.
+		runtime.Goexit()
 	}
 	raceDisable()
 	g := goid()
@@ -246,7 +249,7 @@ func (s *Sched) Yield(point string) {
 //go:norace
 func (s *Sched) park(sl *gslot, point string) {
 	if s.off {
-		return
+		runtime.Goexit()
 	}
 	raceDisable()
 	s.mu.Lock()
@@ -259,6 +262,9 @@ func (s *Sched) park(sl *gslot, point string) {
 	}
 	<-sl.wake
 	raceEnable()
+	if s.off {
+		runtime.Goexit()
+	}
 }
 
 type cand struct {
